@@ -300,6 +300,38 @@ def run_verus(woven, extra, timeout=1800):
     return cmd, out, r.stdout, r.stderr, time.time() - t0
 
 
+def witness_search(prop, repo, rundir, seed, timeout=600):
+    """bounded differential check of the real code against executable restatements of the property
+    (tools/replay).  Returns dict(cases, failures=[...], error)"""
+    crate = os.path.join(rundir, "replay-crate")
+    os.makedirs(crate, exist_ok=True)
+    tmpl = open(os.path.join(HERE, "replay", "Cargo.toml.in")).read().replace("@REPO@", os.path.realpath(repo))
+    open(os.path.join(crate, "Cargo.toml"), "w").write(tmpl)
+    if os.path.isdir(os.path.join(crate, "src")):
+        shutil.rmtree(os.path.join(crate, "src"))
+    shutil.copytree(os.path.join(HERE, "replay", "src"), os.path.join(crate, "src"))
+    shutil.copy(os.path.join(repo, "Cargo.lock"), os.path.join(crate, "Cargo.lock"))
+    env = dict(os.environ, CARGO_NET_OFFLINE="true", CARGO_TARGET_DIR=os.path.join(WORK, "replay-target"))
+    b = subprocess.run(["cargo", "build", "--release", "--offline", "-q"], cwd=crate, env=env, capture_output=True, text=True)
+    if b.returncode != 0:
+        return {"cases": 0, "failures": [], "error": "replay tool does not build against this tree: " + b.stderr[-400:]}
+    try:
+        r = subprocess.run([os.path.join(WORK, "replay-target", "release", "replay"), "witness", prop, str(seed)], capture_output=True, text=True, timeout=timeout)
+    except subprocess.TimeoutExpired:
+        return {"cases": 0, "failures": [], "error": "witness search timed out"}
+    res = {"cases": 0, "failures": [], "error": None}
+    for l in r.stdout.splitlines():
+        try:
+            d = json.loads(l)
+        except ValueError:
+            continue
+        if "cases" in d:
+            res["cases"] = d["cases"]
+        else:
+            res["failures"].append(d)
+    return res
+
+
 def function_results(out):
     res = {}
     if not out:
@@ -340,6 +372,8 @@ def main():
     seed = int(os.environ.get("VERIF_SEED", "0") or 0)
     t0 = time.time()
     ensure_setup()
+    if a.replay:
+        sys.exit(do_replay(prop, a))
     rundir = os.path.join(WORK, "run-%s-%s-%d" % (prop, tier, os.getpid()))
     woven = os.path.join(rundir, "woven")
     os.makedirs(rundir, exist_ok=True)
@@ -351,12 +385,48 @@ def main():
     sys.exit(rc)
 
 
+def do_replay(prop, a):
+    """re-run what a replay file records: the concrete input through the real crate, and name the obligations"""
+    d = json.load(open(a.replay))
+    for f in d.get("failed_obligations", []):
+        print("FAILED-OBLIGATION unit=%s kind=%s clause=%s at=%s" % (f.get("unit"), f.get("kind"), f.get("clause"), f.get("repo_loc") or f.get("woven_loc")))
+    fi = d.get("failing_input")
+    if not fi:
+        print("no concrete input recorded (no-failing-input-found); re-run ./check %s quick to re-check the obligations" % prop)
+        return 0
+    rundir = os.path.join(WORK, "replay-%d" % os.getpid())
+    os.makedirs(rundir, exist_ok=True)
+    try:
+        ws = witness_search(prop, a.repo, rundir, 0)
+        hit = [w for w in ws["failures"] if w["input"] == fi["pyxis"] and w["ptr"] == fi["pointer_size"]]
+        print("input (pointer size %s):\n%s" % (fi["pointer_size"], fi["pyxis"]))
+        print("expected: %s" % fi["expected"])
+        if hit:
+            print("actual  : %s" % hit[0]["actual"])
+            print("REPRODUCED")
+            return 1
+        print("not reproduced on this tree (%d cases, %d failing)" % (ws["cases"], len(ws["failures"])))
+        return 0
+    finally:
+        shutil.rmtree(rundir, ignore_errors=True)
+
+
 def decide(prop, tier, seed, a, rundir, woven, t0):
     import props
     try:
         meta = weave_mod.weave(a.repo, woven)
     except WeaveError as e:
-        print("UNDECIDED property=%s reason=weave: %s" % (prop, e))
+        # anchor lost / rule not applicable: the deductive check cannot be run on this tree.
+        # Bounded stand-in: search the input families for a concrete failing input on the real code.
+        ws = witness_search(prop, a.repo, rundir, seed) if prop in WITNESS_PROPS else {"cases": 0, "failures": [], "error": "no family"}
+        if ws["failures"]:
+            rp = write_replay(prop, [], ["(weave failed: %s)" % e], [], ws, note="deductive check UNDECIDED (weave: %s); bounded differential check found a failing input" % e)
+            w = ws["failures"][0]
+            print("BOUNDED-CHECK property=%s cases=%d failing=%d (deductive check undecided: %s)" % (prop, ws["cases"], len(ws["failures"]), e))
+            print("FAILING-INPUT property=%s ptr=%s expected: %s actual: %s" % (prop, w["ptr"], w["expected"][:160], w["actual"][:200]))
+            print("VIOLATION property=%s replay=%s" % (prop, rp))
+            return 1
+        print("UNDECIDED property=%s reason=weave: %s (bounded differential check: %s cases, no failing input)" % (prop, e, ws.get("cases")))
         return 2
     sm = SegMap(meta, a.repo)
     extra = ["--num-threads", "16", "--multiple-errors", "20", "--rlimit", "60" if tier == "quick" else "120"]
@@ -393,7 +463,16 @@ def decide(prop, tier, seed, a, rundir, woven, t0):
     info = props.PROPS.get(prop, {})
     # ---- undecided?
     if undecided:
-        # a compile error / unsupported construct anywhere makes the whole crate unverifiable
+        # a compile error / unsupported construct anywhere makes the whole crate unverifiable.
+        # Bounded stand-in: search the input families for a concrete failing input on the real code.
+        ws = witness_search(prop, a.repo, rundir, seed) if prop in WITNESS_PROPS else {"cases": 0, "failures": [], "error": "no family"}
+        if ws["failures"]:
+            rp = write_replay(prop, [], cmd, diags, ws, note="deductive check UNDECIDED (%s); bounded differential check found a failing input" % "; ".join(u["reason"] for u in undecided[:3]))
+            print("BOUNDED-CHECK property=%s cases=%d failing=%d first: expected %s, actual %s" % (prop, ws["cases"], len(ws["failures"]), ws["failures"][0]["expected"][:120], ws["failures"][0]["actual"][:160]))
+            write_evidence(prop, tier, seed, info, meta, my_units, my_clauses, fres, [], trusted, cmd, time.time() - t0, out,
+                           note="UNDECIDED deductively; bounded differential check (labelled bounded) found a failing input", undecided=True, witness=ws)
+            print("VIOLATION property=%s replay=%s" % (prop, rp))
+            return 1
         for u in undecided[:5]:
             print("UNDECIDED property=%s reason=%s %s %s" % (prop, u["reason"], u.get("message", "")[:200].replace("\n", " "), " ".join(u.get("where", []))))
         write_evidence(prop, tier, seed, info, meta, my_units, my_clauses, fres, [], trusted, cmd, time.time() - t0, out,
@@ -428,23 +507,51 @@ def decide(prop, tier, seed, a, rundir, woven, t0):
     write_evidence(prop, tier, seed, info, meta, my_units, my_clauses, fres, my_fail, trusted, cmd, time.time() - t0, out,
                    known=[k for _, k in kf], other=other_fail)
     if viol:
-        os.makedirs(os.path.join(VERIF, "replays"), exist_ok=True)
-        rp = os.path.join(VERIF, "replays", "%s-%s.json" % (prop, hashlib.sha1(json.dumps(viol, sort_keys=True).encode()).hexdigest()[:10]))
-        json.dump({"property": prop, "failed_obligations": viol, "checker_cmd": " ".join(cmd),
-                   "verus_stderr": [d.get("rendered") or d.get("message") for d in diags if d.get("level") == "error"][:20],
-                   "failing_input": None}, open(rp, "w"), indent=1)
+        ws = witness_search(prop, a.repo, rundir, seed) if prop in WITNESS_PROPS else {"cases": 0, "failures": [], "error": "no family"}
+        rp = write_replay(prop, viol, cmd, diags, ws)
         for f in viol[:8]:
             print("FAILED-OBLIGATION property=%s unit=%s kind=%s clause=%s at=%s :: %s" % (
                 prop, f["unit"], f["kind"], f.get("clause"), f.get("repo_loc") or f.get("woven_loc"), f["message"]))
-        print("VIOLATION property=%s replay=%s no-failing-input-found" % (prop, rp))
+        if ws["failures"]:
+            w = ws["failures"][0]
+            print("FAILING-INPUT property=%s ptr=%s expected: %s actual: %s" % (prop, w["ptr"], w["expected"][:160], w["actual"][:200]))
+            print("VIOLATION property=%s replay=%s" % (prop, rp))
+        else:
+            print("VIOLATION property=%s replay=%s no-failing-input-found" % (prop, rp))
         return 1
+    if tier == "thorough" and prop in WITNESS_PROPS:
+        ws = witness_search(prop, a.repo, rundir, seed)
+        if ws["failures"]:
+            rp = write_replay(prop, [], cmd, diags, ws, note="all obligations discharged, but the bounded differential check found a failing input on the real code")
+            w = ws["failures"][0]
+            print("FAILING-INPUT property=%s ptr=%s expected: %s actual: %s" % (prop, w["ptr"], w["expected"][:160], w["actual"][:200]))
+            print("VIOLATION property=%s replay=%s" % (prop, rp))
+            return 1
+        write_evidence(prop, tier, seed, info, meta, my_units, my_clauses, fres, my_fail, trusted, cmd, time.time() - t0, out,
+                       known=[k for _, k in kf], other=other_fail, witness=ws)
     nfun = sum(1 for u in my_units.values() if u["mode"] == "V")
     print("OK property=%s units=%d clauses=%d verified_functions_total=%s wall=%.1fs" % (prop, nfun, len(my_clauses), vres.get("verified"), time.time() - t0))
     return 0
 
 
+WITNESS_PROPS = {"C01", "C02", "C03", "C04", "C05", "C06", "C08", "C10", "C11", "C12", "C14", "C15", "C16", "C17", "C19", "C20"}
+
+
+def write_replay(prop, viol, cmd, diags, ws, note=None):
+    os.makedirs(os.path.join(VERIF, "replays"), exist_ok=True)
+    key = json.dumps([viol, ws.get("failures", [])[:1]], sort_keys=True)
+    rp = os.path.join(VERIF, "replays", "%s-%s.json" % (prop, hashlib.sha1(key.encode()).hexdigest()[:10]))
+    w = ws["failures"][0] if ws.get("failures") else None
+    json.dump({"property": prop, "note": note, "failed_obligations": viol, "checker_cmd": " ".join(cmd),
+               "verus_stderr": [d.get("rendered") or d.get("message") for d in diags if d.get("level") == "error"][:20],
+               "failing_input": ({"pyxis": w["input"], "pointer_size": w["ptr"], "expected": w["expected"], "actual": w["actual"], "family": w["family"]} if w else None),
+               "other_failing_inputs": ws.get("failures", [])[1:6], "witness_search": {"cases": ws.get("cases"), "error": ws.get("error")}},
+              open(rp, "w"), indent=1)
+    return rp
+
+
 def write_evidence(prop, tier, seed, info, meta, my_units, my_clauses, fres, my_fail, trusted, cmd, wall, out, note=None,
-                   undecided=False, known=(), other=()):
+                   undecided=False, known=(), other=(), witness=None):
     failed_units = {f["unit"] for f in my_fail}
     failed_clauses = {f["clause"] for f in my_fail if f.get("clause")}
     vunits = [u for u in my_units.values() if u["mode"] == "V"]
@@ -492,6 +599,11 @@ def write_evidence(prop, tier, seed, info, meta, my_units, my_clauses, fres, my_
         "wall_s": round(wall, 2),
         "violations": len([f for f in my_fail]) - len(known),
     }
+    if witness is not None:
+        ev["coverage"]["bounded_differential_check"] = {
+            "label": "bounded (not counted in obligations/discharged): inputs of the generated families run through the real crate and compared with an executable restatement of the property",
+            "cases": witness.get("cases"), "failing": len(witness.get("failures", [])), "error": witness.get("error"),
+            "bound": "single type, <= 2 fields exhaustively (10 field types x 8 addresses x size/align/packed/vftable), 6000 random 3-4 field types; vftables <= 3 functions; enums <= 3 variants; see tools/replay/src/main.rs"}
     if note:
         ev["coverage"]["note"] = note
     evdir = os.path.join(VERIF, "evidence") if os.path.realpath(REPO[0]) == "/repo" else os.path.join(WORK, "evidence-scratch")
